@@ -854,7 +854,7 @@ func (kcp *KCP) flush(flushType FlushType) (nextUpdate uint32) {
 	}
 
 	newSegsCount := 0
-	for {
+	for flushType == IKCP_FLUSH_FULL { // an ack-only flush transmits no data: admit nothing it cannot send
 		if _itimediff(kcp.snd_nxt, kcp.snd_una+cwnd) >= 0 {
 			break
 		}
